@@ -41,7 +41,8 @@ def check(case, M):
     ids = B.FINDING_IDS["C12"]
     # decidable classifiers (functions of the case, its grammar, costs, filter and script only)
     zero = r["zero"]
-    wont_stop = (not merged_any) and strict != L            # the count G.programs() is never reached
+    fixed = bool(r.get("fixed"))                            # the tree has the repair of C12-F11 (stop at the maximal cost)
+    wont_stop = (not merged_any) and strict != L and not fixed      # the count G.programs() is never reached
 
     def fail(kind, what, detail, finding=None):
         if any(g["what"] == what for g in failures):
@@ -60,7 +61,7 @@ def check(case, M):
         ys = B.flat(r["steps"])
         Y = [B.show(p) for p in ys]
         if not stopped:
-            if merged_any or r["budget_cut"]:
+            if (merged_any and not fixed) or r["budget_cut"]:
                 pass            # stops only after 1000 unproductive rounds: observed on unary grammars only (tag)
             else:
                 fail("oracle", "the enumerator does not stop", f"still running after {r['rounds']} rounds, cheapest queued cost above every program of the language",
